@@ -149,6 +149,33 @@ func c04Days(w *W, y int) {
 			w.Distinct(1)
 		}
 	}
+	if y >= 1482 && y <= 1682 {
+		// every date of the two centuries around the switch is stepped by months / years INTO October 1582
+		for m := 1; m <= 12; m++ {
+			for d := 1; d <= 31; d++ {
+				if !ref.Exists(y, m, d) {
+					continue
+				}
+				s := calendar.NewSolar(y, m, d, 7, 8, 9)
+				key := ymd(y, m, d)
+				nm := (1582*12 + 9) - (y*12 + m - 1)
+				var r *calendar.Solar
+				if pv := Call(func() { r = s.NextMonth(nm) }); pv != nil {
+					w.Violatef("nextmonth", key+"/into-1582-10", "%s.NextMonth(%d) (target October 1582) panicked: %v", key, nm, pv)
+				} else if g := stampOf(r); !g.Valid() || g.Y != 1582 || g.M != 10 || (ref.Exists(1582, 10, d) && g.D != d) || (d > 4 && d < 15 && !(g.D == 4 || (g.D >= 15 && g.D <= 24))) {
+					w.Violatef("nextmonth", key+"/into-1582-10", "%s.NextMonth(%d) = %s, expected a valid day of October 1582 with the day kept where it exists", key, nm, r.ToYmdHms())
+				}
+				if m == 10 {
+					if pv := Call(func() { r = s.NextYear(1582 - y) }); pv != nil {
+						w.Violatef("nextyear", key+"/into-1582", "%s.NextYear(%d) panicked: %v", key, 1582-y, pv)
+					} else if g := stampOf(r); !g.Valid() || g.Y != 1582 || g.M != 10 || (ref.Exists(1582, 10, d) && g.D != d) {
+						w.Violatef("nextyear", key+"/into-1582", "%s.NextYear(%d) = %s", key, 1582-y, r.ToYmdHms())
+					}
+				}
+				w.Eval(2)
+			}
+		}
+	}
 	if y == 1582 {
 		w.Sample("days", map[string]interface{}{"day": "1582-10-15", "jdn": ref.JDN(1582, 10, 15), "weekday": ref.Weekday(ref.JDN(1582, 10, 15)), "prev": "1582-10-04"})
 	}
